@@ -27,8 +27,8 @@ type pairState struct {
 func (ps pairState) String() string {
 	s := "e=" + ps.E.String() + " r="
 	switch ps.Kind {
-	case "term":
-		s += ps.R.String()
+	case "term", "termK":
+		s += ps.Kind + " " + ps.R.String()
 	case "node":
 		s += fmt.Sprintf("node[%d] of e", ps.Idx)
 	case "sentinel":
@@ -48,6 +48,8 @@ func (ps pairState) resolve() (e, r error, ok bool) {
 	switch ps.Kind {
 	case "term":
 		r = ps.R.Build()
+	case "termK":
+		r, _ = tm.HopK(ps.R.Build())
 	case "self":
 		r = e
 	case "node":
@@ -159,6 +161,15 @@ func evalPairState(ps pairState) string {
 			}
 			return ""
 		}
+		if ps.W == "" && (ps.Kind == "term" || ps.Kind == "termK") && ps.R != nil {
+			for c := ps.E; c != nil && !c.Op.HidesCause && c.Op.Kind != tm.KMulti; c = c.Kid {
+				if c.Op.SideIsReference && skeleton(c.Side[0]) == skeleton(ps.R) && c.Side[0].String() == ps.R.String() {
+					if ok, p := tm.IsG(e, r); !ok || p {
+						return fail("mark-law", "e contains Mark(x, r) on its cause chain but Is(e, r') is false for an equivalent copy r' of r (%q)", errText(r))
+					}
+				}
+			}
+		}
 		if ps.Kind == "self" {
 			if eg, p := tm.IsG(e, e); p || !eg {
 				return fail("reflexive", "Is(e, e) = %v (panic=%v) for %T", eg, p, e)
@@ -196,7 +207,7 @@ func reportPair(r *core.Result, ps pairState, m string) {
 		})
 		changed := skeleton(me) != skeleton(min.E)
 		min.E = me
-		if min.Kind == "term" {
+		if min.Kind == "term" || min.Kind == "termK" {
 			mr := minimizeWith(min.R, func(c *tm.Term) bool {
 				x := min
 				x.R = c
@@ -213,7 +224,7 @@ func reportPair(r *core.Result, ps pairState, m string) {
 	}
 	k := clause + "|" + skeleton(min.E) + "~" + min.Kind
 	switch min.Kind {
-	case "term":
+	case "term", "termK":
 		k += ":" + skeleton(min.R)
 		e, rr, _ := min.resolve()
 		if e.Error() == rr.Error() {
@@ -256,6 +267,7 @@ func runC08(c *core.Ctx, r *core.Result) {
 	}
 	add(tm.Full(1))
 	add(tm.Full(2))
+	pool = append(pool, tm.Extras()...)
 	perturbBase := 3
 	if c.Thorough() {
 		add(tm.Core(3))
@@ -345,6 +357,33 @@ func runC08(c *core.Ctx, r *core.Result) {
 			visit(pairState{E: pt, R: t, Kind: "term"}, pe, e, pn, en, false)
 			r.Transitions += 2
 		}
+		// references equivalent to the side arguments of e (mark references,
+		// secondary errors, format arguments): a fresh copy and a copy that
+		// went over the network (so that no Is method comparing object
+		// identity can make up for a missing mark)
+		for _, st := range sideTerms(t) {
+			fe := st.Build()
+			visit(pairState{E: t, R: st, Kind: "term"}, e, fe, en, tm.BuildRNode(fe), false)
+			de, _ := tm.HopK(st.Build())
+			visit(pairState{E: t, R: st, Kind: "termK"}, e, de, en, tm.BuildRNode(de), false)
+			r.Transitions += 2
+		}
+		// the law of Mark, decided on the term (not on the object built):
+		// Mark(x, r) anywhere on the visible cause chain makes the error
+		// match every reference equivalent to r
+		for c := t; c != nil && !c.Op.HidesCause && c.Op.Kind != tm.KMulti; c = c.Kid {
+			if !c.Op.SideIsReference {
+				continue
+			}
+			for _, kind := range []string{"term", "termK"} {
+				ps := pairState{E: t, R: c.Side[0], Kind: kind}
+				_, rr, _ := ps.resolve()
+				r.States++
+				if ok, p := tm.IsG(e, rr); !ok || p {
+					reportPair(r, ps, fail("mark-law", "e contains Mark(x, r) on its cause chain but Is(e, r') is false for r' = %s copy of r (%q)", map[string]string{"term": "a fresh", "termK": "a transferred"}[kind], errText(rr)))
+				}
+			}
+		}
 		// every other pool element
 		for j := range pool {
 			visit(pairState{E: t, R: pool[j], Kind: "term"}, e, refs[j].e, en, refs[j].n, false)
@@ -392,4 +431,22 @@ func runC08(c *core.Ctx, r *core.Result) {
 			}
 		})
 	}
+}
+
+// sideTerms lists every side argument occurring anywhere in t.
+func sideTerms(t *tm.Term) []*tm.Term {
+	var out []*tm.Term
+	var rec func(t *tm.Term)
+	rec = func(t *tm.Term) {
+		if t == nil {
+			return
+		}
+		for _, s := range t.Side {
+			out = append(out, s)
+			rec(s)
+		}
+		rec(t.Kid)
+	}
+	rec(t)
+	return out
 }
